@@ -155,6 +155,27 @@ class HarnessError(Exception):
     pass
 
 
+def hash_sweep(modname, funcname, seeds, timeout=900):
+    """Own the one source of nondeterminism a single process cannot vary: string hashing (set / dict-of-set iteration order).
+    Runs `modname.funcname()` (must return something JSON-serialisable) in one fresh interpreter per PYTHONHASHSEED value
+    and returns {seed: result}.  The hed cache directory and VERIF_REPO are inherited."""
+    import json
+    import subprocess
+    from concurrent.futures import ThreadPoolExecutor
+    code = (f"import json, sys; sys.path.insert(0, {VERIF!r}); from mc import core; import atexit, shutil, os; "
+            f"atexit.register(shutil.rmtree, os.path.dirname(core.private_cache()), True); "
+            f"import {modname} as m; sys.stdout.write('\\n@@SWEEP@@' + json.dumps(m.{funcname}()))")
+
+    def one(seed):
+        env = dict(os.environ, PYTHONHASHSEED=str(seed))
+        p = subprocess.run([sys.executable, "-c", code], capture_output=True, text=True, timeout=timeout, env=env, cwd=VERIF)
+        if p.returncode != 0 or "@@SWEEP@@" not in p.stdout:
+            raise HarnessError(f"hash sweep child failed (seed {seed}): {p.stderr[-600:]}")
+        return seed, json.loads(p.stdout.split("@@SWEEP@@", 1)[1])
+    with ThreadPoolExecutor(min(len(seeds), max(2, NCPU))) as ex:
+        return dict(ex.map(one, seeds))
+
+
 def _child(q, worker, k, nshards, args, kw, seed):
     rec = Rec()
     try:
